@@ -10,6 +10,10 @@
 //   its                    iterators/references kept since the insertion of still-living elements of List/PoolList,
 //                          re-dereferenced now: [serial at insertion, serial designated now, 1 if &element unchanged]
 //   lt                     instance registry counters (J_LIFETIME)
+//   ov, ld, q (C04)        ov[j] = instances an empty container object of variable j's class owns by itself (measured at
+//                          start-up: its end sentinel), ld = held instances that the registry does not list as alive,
+//                          q = live instances at the quiescent point of "fini" (everything destroyed), -1 otherwise
+// "fini <i>" destroys both variables, records the number of live instances, and recreates them as empty lists.
 #include "drv.h"
 #include "tracked.h"
 #include <nstd/List.hpp>
@@ -45,7 +49,23 @@ static void createVar(int i, int kind, long cap)
   else if(kind == K_ARRAY) V[i].a = cap > 0 ? new TArray((usize)cap) : new TArray;
   else V[i].p = new TPool;
 }
-void drv_init(int, char**) { g_op_timeout = 8; V[1].l = V[2].l = 0; V[1].a = V[2].a = 0; V[1].p = V[2].p = 0; trk_reset_registry(); }
+static long g_ov[3] = {0, 0, 0};     // instances owned by an empty container of each class
+static long g_ld = 0, g_q = -1;
+static int aliveT(const Tracked& t) { return t.magic == 0x600DF00Du && t.serial > 0 && t.serial < trk_next && trk_state[t.serial] == 1; }
+static int aliveN(const NoCopy& t) { return t.magic == 0x600DF00Du && t.serial > 0 && t.serial < trk_next && trk_state[t.serial] == 1; }
+void drv_init(int, char**)
+{
+  g_op_timeout = 8; V[1].l = V[2].l = 0; V[1].a = V[2].a = 0; V[1].p = V[2].p = 0; trk_reset_registry();
+  for(int k = 0; k < 3; ++k)
+  { // measure what an empty container object owns (created and destroyed again: the balance must return to zero)
+    long before = trk_live();
+    createVar(1, k, 0);
+    g_ov[k] = trk_live() - before;
+    destroyVar(1);
+    if(trk_live() != before) g_ov[k] = -1000;
+  }
+  trk_reset_registry();
+}
 void drv_fini() { destroyVar(1); destroyVar(2); nkept = 0; }
 void drv_reset()
 {
@@ -92,6 +112,7 @@ static void projectVar(int i)
       const Tracked& t = *it;
       fprintf(g_out, cnt ? ",[%d,%ld,%d]" : "[%d,%ld,%d]", t.value, ser(t.serial), addr_id(&t));
       if(nlive < 2 * PROJ_MAX) liveSerial[nlive++] = ser(t.serial);
+      if(!aliveT(t)) ++g_ld;
     }
   }
   else if(V[i].kind == K_ARRAY)
@@ -101,6 +122,7 @@ static void projectVar(int i)
       const Tracked& t = *it;
       fprintf(g_out, cnt ? ",[%d,%ld,%d]" : "[%d,%ld,%d]", t.value, ser(t.serial), addr_id(&t));
       if(nlive < 2 * PROJ_MAX) liveSerial[nlive++] = ser(t.serial);
+      if(!aliveT(t)) ++g_ld;
     }
   }
   else
@@ -110,6 +132,7 @@ static void projectVar(int i)
       const NoCopy& t = *it;
       fprintf(g_out, cnt ? ",[%d,%ld,%d]" : "[%d,%ld,%d]", t.value, ser(t.serial), addr_id(&t));
       if(nlive < 2 * PROJ_MAX) liveSerial[nlive++] = ser(t.serial);
+      if(!aliveN(t)) ++g_ld;
     }
   }
   fputc(']', g_out);
@@ -141,7 +164,7 @@ static void observe(const char* op, int i, long v, long p, const char* kd, long 
   j_begin(op);
   j_int("i", i); j_int("v", v); j_int("p", p); j_str("kd", kd); j_int("r", r); j_int("b", b);
   fprintf(g_out, ",\"kind\":[\"%s\",\"%s\"]", kindName[V[1].kind], kindName[V[2].kind]);
-  nlive = 0;
+  nlive = 0; g_ld = 0;
   fputs(",\"c\":[", g_out); projectVar(1); fputc(',', g_out); projectVar(2); fputc(']', g_out);
   fprintf(g_out, ",\"sz\":[%ld,%ld]", varSize(1), varSize(2));
   int em1 = V[1].kind == K_LIST ? V[1].l->isEmpty() : V[1].kind == K_ARRAY ? V[1].a->isEmpty() : V[1].p->isEmpty();
@@ -167,6 +190,8 @@ static void observe(const char* op, int i, long v, long p, const char* kd, long 
   }
   nkept = w;
   fputc(']', g_out);
+  fprintf(g_out, ",\"ov\":[%ld,%ld],\"ld\":%ld,\"q\":%ld", g_ov[V[1].kind], g_ov[V[2].kind], g_ld, g_q);
+  g_q = -1;
   J_LIFETIME();
   j_end();
 }
@@ -193,6 +218,15 @@ void drv_apply(const char* op)
     destroyVar(i);
     createVar(i, kind, p);
     observe(op, i, 0, p, kindName[kind], -2, -2);
+    return;
+  }
+  if(!strcmp(op, "fini"))
+  { // destroy everything (lifetime balance for C04), then start again with two empty lists
+    drv_fini();
+    g_q = trk_live();
+    createVar(1, K_LIST, 0);
+    createVar(2, K_LIST, 0);
+    observe(op, i, 0, 0, "", -2, -2);
     return;
   }
   if(tok_more()) v = tok_int();
